@@ -302,12 +302,19 @@ def same_side(repo, notes):
 
 
 def contains_calls(repo, notes):
+    """the same-side calls of `tri_contains_coplanar_point`, read through the symbolic reader of `_symsrc` (an extracted
+    temporary, `x & y` for `np.logical_and(x, y)` and the order of the conjuncts are immaterial)"""
     try:
+        from ._symsrc import Sym
         fn = _func(ast.parse(_src(repo, "polliwog/tri/functions.py")), "tri_contains_coplanar_point")
-        ret = [s for s in fn.body if isinstance(s, ast.Return)][-1].value
+        rets = Sym(fn).returns()
+        if len(rets) != 1:
+            return []
         calls = []
 
         def walk(n):
+            if isinstance(n, ast.BoolOp) and isinstance(n.op, ast.And):
+                return all(walk(v) for v in n.values)
             if _is_call(n, "np", "logical_and") and len(n.args) == 2:
                 return walk(n.args[0]) and walk(n.args[1])
             if _is_call(n, "coplanar_points_are_on_same_side_of_line") and len(n.args) == 4 and not n.keywords:
@@ -316,9 +323,9 @@ def contains_calls(repo, notes):
                     calls.append(names)
                     return True
             return False
-        if not walk(ret):
+        if not walk(rets[0]):
             return []
-        return sorted(calls)  # the order of the logical_and operands is immaterial
+        return sorted(calls)  # the order of the conjuncts is immaterial
     except Exception as e:  # noqa: BLE001
         notes.append("contains: %r" % (e,))
         return []
